@@ -236,6 +236,11 @@ func c06Run(c *c06Case, res *vh.Result) (finds [][2]string, abort string, ncalls
 		if !has {
 			add("no-bookkeeping", fmt.Sprintf("event %d: no retention entry for (%s,%d) after its first copy", ei, addr, seq))
 		}
+		for _, r := range post.Rx {
+			if r.Addr == addr && r.Seq == seq && !r.Timer {
+				add("retention-timer-not-armed", fmt.Sprintf("event %d: retention entry for (%s,%d) has no timer: it would never be released", ei, addr, seq))
+			}
+		}
 		// executed as new: always-answered kinds must be answered with their own, freshly built response
 		answered := in.Kind == "hb" || in.Kind == "assoc" || in.Kind == "mod" || in.Kind == "del" || in.Kind == "est" || in.Kind == "assocc" ||
 			(in.Kind == "estc" && cAssoc)
